@@ -217,171 +217,208 @@ func copyMap(m map[string][]byte) map[string][]byte {
 
 const sigDirtyReopen = "dirty-reopen-keeps-size-and-rawkeys"
 
-// runHistory runs h on the real code; returns the observations and the oracle's complaints. known: the listed finding
-// showed (after a reopen that dropped uncommitted changes Size() differs from the number of keys the instance has).
-func runHistory(set bool, h []ev, rc *rootClasses) (res []obs, fails []string, roots int, known bool) {
-	store := mapdb.NewMapDB()
-	in := open(store, set)
-	ref := map[string][]byte{}      // the plain map
-	var committed map[string][]byte // contents at the last Commit (nil: never committed)
-	dirty, tainted := false, false  // tainted: a reopen dropped uncommitted changes (size / raw keys are written through; outside the property)
-	fail := func(i int, f string, a ...any) {
-		fails = append(fails, fmt.Sprintf("step %d (%s): ", i, h[i].Op)+fmt.Sprintf(f, a...))
-	}
-	for i, e := range h {
-		out := "CNone"
-		func() {
-			defer func() {
-				if p := recover(); p != nil {
-					out = "CErr"
-					fail(i, "panic: %v", p)
-				}
-			}()
-			k := e.key()
-			chk := func(err error) {
-				if err != nil {
-					out = "CErr"
-					fail(i, "error: %v", err)
+// runner is one instance under test over one store (a bare mapdb, or a realm view of a shared one) together with its
+// plain-map oracle. known: the listed finding showed (after a reopen that dropped uncommitted changes Size() differs
+// from the number of keys the instance has).
+type runner struct {
+	store     kvstore.KVStore
+	set       bool
+	in        *inst
+	ref       map[string][]byte // the plain map
+	committed map[string][]byte // contents at the last Commit (nil: never committed)
+	dirty     bool
+	tainted   bool // a reopen dropped uncommitted changes (size / raw keys are written through; outside the property)
+	rc        *rootClasses
+	fails     []string
+	roots     int
+	known     bool
+	label     string
+}
+
+func newRunner(store kvstore.KVStore, set bool, rc *rootClasses, label string) *runner {
+	return &runner{store: store, set: set, in: open(store, set), ref: map[string][]byte{}, rc: rc, label: label}
+}
+
+func (u *runner) fail(i int, e ev, f string, a ...any) {
+	u.fails = append(u.fails, fmt.Sprintf("step %d%s (%s): ", i, u.label, e.Op)+fmt.Sprintf(f, a...))
+}
+
+// wipe: the store view is cleared (all keys of the instance's realm) and a new instance is constructed over it
+func (u *runner) wipe() error {
+	err := u.store.Clear()
+	u.in = open(u.store, u.set)
+	u.ref, u.committed, u.dirty, u.tainted = map[string][]byte{}, nil, false, false
+	return err
+}
+
+// do runs event e (step number i of the history) on the real code and judges it against the plain map.
+func (u *runner) do(i int, e ev) obs {
+	in, ref := u.in, u.ref
+	fail := func(i int, f string, a ...any) { u.fail(i, e, f, a...) }
+	out := "CNone"
+	func() {
+		defer func() {
+			if p := recover(); p != nil {
+				out = "CErr"
+				fail(i, "panic: %v", p)
+			}
+		}()
+		k := e.key()
+		chk := func(err error) {
+			if err != nil {
+				out = "CErr"
+				fail(i, "error: %v", err)
+			}
+		}
+		switch e.Op {
+		case "set":
+			v := e.val()
+			chk(in.m.Set(k, v))
+			if v == nil {
+				v = []byte{}
+			}
+			if old, ok := ref[k]; !ok || !bytes.Equal(old, v) {
+				u.dirty = true
+			}
+			ref[k] = v
+		case "add":
+			chk(in.s.Add(k))
+			if _, ok := ref[k]; !ok {
+				u.dirty = true
+			}
+			ref[k] = []byte{}
+		case "delete":
+			d, err := in.Delete(k)
+			chk(err)
+			_, was := ref[k]
+			if err == nil {
+				out = "CBool " + vx.Bool(d)
+				if d != was {
+					fail(i, "Delete(%q) = %v, key present = %v", k, d, was)
 				}
 			}
-			switch e.Op {
-			case "set":
-				v := e.val()
-				chk(in.m.Set(k, v))
-				if v == nil {
-					v = []byte{}
+			if was {
+				u.dirty = true
+			}
+			delete(ref, k)
+		case "commit":
+			chk(in.Commit())
+			u.committed = copyMap(ref)
+			u.dirty = false
+		case "reopen":
+			old := in.Root()
+			u.in = open(u.store, u.set)
+			in = u.in
+			if u.dirty {
+				u.tainted = true
+				u.ref = copyMap(u.committed)
+				if u.ref == nil {
+					u.ref = map[string][]byte{}
 				}
-				if old, ok := ref[k]; !ok || !bytes.Equal(old, v) {
-					dirty = true
+				u.dirty = false
+			} else if r := in.Root(); r != old {
+				fail(i, "reopen without uncommitted changes: Root %x became %x", old[:4], r[:4])
+			}
+		case "wipe":
+			chk(u.wipe())
+		case "get":
+			v, ex, err := in.m.Get(k)
+			chk(err)
+			if err == nil {
+				out = "CGet " + vx.Opt(ex, vx.Bytes(v))
+				want, was := ref[k]
+				if ex != was || (ex && !bytes.Equal(v, want)) {
+					fail(i, "Get(%q) = %x,%v; plain map has %x,%v", k, v, ex, want, was)
 				}
-				ref[k] = v
-			case "add":
-				chk(in.s.Add(k))
-				if _, ok := ref[k]; !ok {
-					dirty = true
+			}
+		case "has":
+			b, err := in.Has(k)
+			chk(err)
+			if err == nil {
+				out = "CBool " + vx.Bool(b)
+				if _, was := ref[k]; b != was {
+					fail(i, "Has(%q) = %v; plain map %v", k, b, was)
 				}
-				ref[k] = []byte{}
-			case "delete":
-				d, err := in.Delete(k)
-				chk(err)
-				_, was := ref[k]
-				if err == nil {
-					out = "CBool " + vx.Bool(d)
-					if d != was {
-						fail(i, "Delete(%q) = %v, key present = %v", k, d, was)
-					}
-				}
-				if was {
-					dirty = true
-				}
-				delete(ref, k)
-			case "commit":
-				chk(in.Commit())
-				committed = copyMap(ref)
-				dirty = false
-			case "reopen":
-				old := in.Root()
-				in = open(store, set)
-				if dirty {
-					tainted = true
-					ref = copyMap(committed)
-					if ref == nil {
-						ref = map[string][]byte{}
-					}
-					dirty = false
-				} else if r := in.Root(); r != old {
-					fail(i, "reopen without uncommitted changes: Root %x became %x", old[:4], r[:4])
-				}
-			case "get":
-				v, ex, err := in.m.Get(k)
-				chk(err)
-				if err == nil {
-					out = "CGet " + vx.Opt(ex, vx.Bytes(v))
-					want, was := ref[k]
-					if ex != was || (ex && !bytes.Equal(v, want)) {
-						fail(i, "Get(%q) = %x,%v; plain map has %x,%v", k, v, ex, want, was)
-					}
-				}
-			case "has":
-				b, err := in.Has(k)
-				chk(err)
-				if err == nil {
-					out = "CBool " + vx.Bool(b)
-					if _, was := ref[k]; b != was {
-						fail(i, "Has(%q) = %v; plain map %v", k, b, was)
-					}
-				}
-			case "stream", "keys":
-				var got []kv
-				var err error
-				if e.Op == "stream" {
-					err = in.m.Stream(func(k string, v []byte) error { got = append(got, kv{k, v}); return nil })
-				} else {
-					err = in.s.Stream(func(k string) error { got = append(got, kv{k, []byte{}}); return nil })
-				}
-				chk(err)
-				if err == nil {
-					terms := make([]string, len(got))
-					for j, x := range got {
-						if e.Op == "stream" {
-							terms[j] = vx.Pair(vx.Bytes([]byte(x.k)), vx.Opt(x.v != nil, vx.Bytes(x.v)))
-						} else {
-							terms[j] = vx.Bytes([]byte(x.k))
-						}
-					}
+			}
+		case "stream", "keys":
+			var got []kv
+			var err error
+			if e.Op == "stream" {
+				err = in.m.Stream(func(k string, v []byte) error { got = append(got, kv{k, v}); return nil })
+			} else {
+				err = in.s.Stream(func(k string) error { got = append(got, kv{k, []byte{}}); return nil })
+			}
+			chk(err)
+			if err == nil {
+				terms := make([]string, len(got))
+				for j, x := range got {
 					if e.Op == "stream" {
-						out = "CStream " + vx.List(terms)
+						terms[j] = vx.Pair(vx.Bytes([]byte(x.k)), vx.Opt(x.v != nil, vx.Bytes(x.v)))
 					} else {
-						out = "CKeys " + vx.List(terms)
-					}
-					if !tainted {
-						seen := map[string]bool{}
-						for _, x := range got {
-							want, was := ref[x.k]
-							if !was || seen[x.k] || x.v == nil || !bytes.Equal(want, x.v) {
-								fail(i, "Stream delivered %q=%x (nil=%v); plain map has %x,%v; duplicate=%v", x.k, x.v, x.v == nil, want, was, seen[x.k])
-							}
-							seen[x.k] = true
-						}
-						if len(seen) != len(ref) {
-							fail(i, "Stream delivered %d distinct keys, plain map has %d", len(seen), len(ref))
-						}
+						terms[j] = vx.Bytes([]byte(x.k))
 					}
 				}
-			case "root":
-				r := in.Root()
-				roots++
-				out = fmt.Sprintf("CRoot %d%%positive", rc.id(r))
-				if why := rc.judge(ref, r); why != "" {
-					fail(i, "root classes: %s", why)
+				if e.Op == "stream" {
+					out = "CStream " + vx.List(terms)
+				} else {
+					out = "CKeys " + vx.List(terms)
 				}
-			case "restored":
-				out = "CBool " + vx.Bool(in.Restored())
-			default:
-				panic("bad op")
+				if !u.tainted {
+					seen := map[string]bool{}
+					for _, x := range got {
+						want, was := ref[x.k]
+						if !was || seen[x.k] || x.v == nil || !bytes.Equal(want, x.v) {
+							fail(i, "Stream delivered %q=%x (nil=%v); plain map has %x,%v; duplicate=%v", x.k, x.v, x.v == nil, want, was, seen[x.k])
+						}
+						seen[x.k] = true
+					}
+					if len(seen) != len(ref) {
+						fail(i, "Stream delivered %d distinct keys, plain map has %d", len(seen), len(ref))
+					}
+				}
+			}
+		case "root":
+			r := in.Root()
+			u.roots++
+			out = fmt.Sprintf("CRoot %d%%positive", u.rc.id(r))
+			if why := u.rc.judge(ref, r); why != "" {
+				fail(i, "root classes: %s", why)
+			}
+		case "restored":
+			out = "CBool " + vx.Bool(in.Restored())
+		default:
+			panic("bad op")
+		}
+	}()
+	in, ref = u.in, u.ref
+	o := obs{out: out}
+	func() {
+		defer func() {
+			if p := recover(); p != nil {
+				fail(i, "panic in Size/WasRestoredFromStorage: %v", p)
 			}
 		}()
-		o := obs{out: out}
-		func() {
-			defer func() {
-				if p := recover(); p != nil {
-					fail(i, "panic in Size/WasRestoredFromStorage: %v", p)
-				}
-			}()
-			o.size, o.restored = in.Size(), in.Restored()
-		}()
-		if !tainted && o.size != len(ref) {
-			fail(i, "Size() = %d, plain map has %d keys", o.size, len(ref))
-		}
-		if tainted && o.size != len(ref) {
-			known = true
-		}
-		if o.restored != (committed != nil) {
-			fail(i, "WasRestoredFromStorage() = %v, a Commit happened before = %v", o.restored, committed != nil)
-		}
-		res = append(res, o)
+		o.size, o.restored = in.Size(), in.Restored()
+	}()
+	if !u.tainted && o.size != len(ref) {
+		fail(i, "Size() = %d, plain map has %d keys", o.size, len(ref))
 	}
-	return res, fails, roots, known
+	if u.tainted && o.size != len(ref) {
+		u.known = true
+	}
+	if o.restored != (u.committed != nil) {
+		fail(i, "WasRestoredFromStorage() = %v, a Commit happened before = %v", o.restored, u.committed != nil)
+	}
+	return o
+}
+
+// runHistory runs h on the real code over a fresh mapdb; returns the observations and the oracle's complaints.
+func runHistory(set bool, h []ev, rc *rootClasses) (res []obs, fails []string, roots int, known bool) {
+	u := newRunner(mapdb.NewMapDB(), set, rc, "")
+	for i, e := range h {
+		res = append(res, u.do(i, e))
+	}
+	return res, u.fails, u.roots, u.known
 }
 
 // ---------- generation ----------
@@ -565,8 +602,12 @@ func main() {
 		concMain(os.Args[2:])
 		return
 	}
+	if len(os.Args) > 1 && os.Args[1] == "realms" {
+		realmsMain(os.Args[2:])
+		return
+	}
 	if len(os.Args) < 2 || os.Args[1] != "hist" {
-		vx.Die("usage: hx-c09 hist --n N --len L --seed S --out cases.v --stats stats.json [--replay file] | hx-c09 conc --rounds R --ms MS --seed S --stats stats.json [--replay file --repeat K]")
+		vx.Die("usage: hx-c09 hist --n N --len L --seed S --out cases.v --stats stats.json [--replay file] | hx-c09 realms --n N --len L --seed S --out cases.v --stats stats.json [--replay file] | hx-c09 conc --rounds R --ms MS --seed S --stats stats.json [--replay file --repeat K]")
 	}
 	fs := flag.NewFlagSet("hist", flag.ExitOnError)
 	n := fs.Int("n", 300, "")
